@@ -1,12 +1,17 @@
 // Interface ingress, IPv4 over raw-IP and Ethernet media: C11 (addressing / no replies to non-unicast),
 // C10 (source legality of replies), C03 (no panic on arbitrary bytes), C08d (checksum failures have no effect).
 // Spliced into src/iface/interface/mod.rs (child of iface::interface).
-#[cfg(all(feature = "proto-ipv4", feature = "medium-ip", feature = "socket-tcp", feature = "socket-udp", feature = "socket-icmp"))]
+#[cfg(all(feature = "proto-ipv4", feature = "medium-ip"))]
 #[allow(dead_code, unused_imports, unused_variables, unused_mut)]
 mod v_iface_ingress {
     use super::*;
     use crate::phy::ChecksumCapabilities;
-    use crate::socket::{icmp, tcp, udp};
+    #[cfg(feature = "socket-icmp")]
+    use crate::socket::icmp;
+    #[cfg(feature = "socket-tcp")]
+    use crate::socket::tcp;
+    #[cfg(feature = "socket-udp")]
+    use crate::socket::udp;
     use crate::verif_common::*;
     use crate::verif_dev::{CapDev, CapTx, TxState};
     use crate::iface::{SocketHandle, SocketStorage};
@@ -132,10 +137,12 @@ mod v_iface_ingress {
         };
     }
 
+    #[cfg(feature = "socket-tcp")]
     fn tcp_untouched(sockets: &SocketSet, th: SocketHandle) -> bool {
         let t = sockets.get::<tcp::Socket>(th);
         t.state() == tcp::State::Listen && t.remote_endpoint().is_none() && t.local_endpoint().is_none()
     }
+    #[cfg(feature = "socket-udp")]
     fn udp_untouched(sockets: &SocketSet, uh: SocketHandle) -> bool {
         !sockets.get::<udp::Socket>(uh).can_recv()
     }
@@ -148,6 +155,7 @@ mod v_iface_ingress {
             _ => false,
         }
     }
+    #[cfg(feature = "socket-tcp")]
     fn reply_is_tcp_rst(p: &Packet) -> bool {
         match p.payload() {
             IpPayload::Tcp(t) => t.control == TcpControl::Rst,
@@ -162,6 +170,7 @@ mod v_iface_ingress {
     }
 
     // @harness props=C11,C10 cfg=KI4 tier=q to=1500 mem=12 unwind=8 opts=nomem covers=4 funcs=InterfaceInner::process_ip;InterfaceInner::process_ipv4;InterfaceInner::process_tcp;tcp::Socket::accepts;tcp::Socket::process;tcp::Socket::rst_reply bounds=raw-IP_medium;_own_address_192.168.1.1/24;_any_IPv4_source_and_destination;_any_ports,_flags,_seq/ack;_socket_set:_one_TCP_listener_on_port_80
+    #[cfg(feature = "socket-tcp")]
     #[kani::proof]
     pub(crate) fn ipv4_addr_tcp() {
         env4_tcp!(iface, sockets, th, Medium::Ip, ChecksumCapabilities::ignored());
@@ -213,6 +222,7 @@ mod v_iface_ingress {
     }
 
     // @harness props=C11,C10,C09 cfg=KI4 tier=q to=900 mem=8 unwind=10 opts=nomem covers=4 funcs=InterfaceInner::process_ip;InterfaceInner::process_ipv4;InterfaceInner::process_udp;udp::Socket::accepts;udp::Socket::process;InterfaceInner::icmpv4_reply bounds=raw-IP_medium;_own_address_192.168.1.1/24;_any_IPv4_source_and_destination;_any_ports;_4_payload_bytes
+    #[cfg(feature = "socket-udp")]
     #[kani::proof]
     pub(crate) fn ipv4_addr_udp() {
         env4_udp!(iface, sockets, uh, Medium::Ip, ChecksumCapabilities::ignored());
@@ -264,6 +274,7 @@ mod v_iface_ingress {
     }
 
     // @harness props=C11,C10,C03 cfg=KI4 tier=q to=900 mem=8 unwind=10 opts=nomem covers=3 funcs=InterfaceInner::process_ip;InterfaceInner::process_ipv4;InterfaceInner::process_icmpv4;InterfaceInner::icmpv4_reply;icmp::Socket::accepts_v4;icmp::Socket::process_v4 bounds=raw-IP_medium;_own_address_192.168.1.1/24;_any_IPv4_source_and_destination;_any_ICMP_type/code/ident/seq;_4_data_bytes
+    #[cfg(feature = "socket-icmp")]
     #[kani::proof]
     pub(crate) fn ipv4_addr_icmp() {
         env4_icmp!(iface, sockets, ih, Medium::Ip, ChecksumCapabilities::ignored());
@@ -302,23 +313,99 @@ mod v_iface_ingress {
         kani::cover!(reply.is_none() && ty == 3, "incoming ICMP error ignored");
     }
 
-    // C03, raw-IP medium: arbitrary bytes as an IPv4 packet never panic and leave the interface answering pings.
-    // @harness props=C03 cfg=KI4 tier=q to=1800 mem=8 unwind=12 covers=2 funcs=InterfaceInner::process_ip;InterfaceInner::process_ipv4;InterfaceInner::process_tcp;InterfaceInner::process_udp;InterfaceInner::process_icmpv4;InterfaceInner::process_igmp;wire::Ipv4Repr::parse;wire::TcpRepr::parse;wire::UdpRepr::parse;wire::Icmpv4Repr::parse bounds=raw-IP_medium;_first_byte_0x45_(IPv4,_no_options);_36_arbitrary_following_bytes,_length_0..=36;_socket_set:_one_TCP_listener
+    // C03, raw-IP medium: arbitrary bytes as an IPv4 packet never panic, and whatever is answered comes from a legal
+    // source.  One harness per protocol octet / header form: with the protocol, the header length and the fragment
+    // fields all symbolic in one harness the symbolic execution explores every upper-layer parser for every form and
+    // ran out of 8 GB (also with a single socket type).  In every harness the type-of-service, total length, ident,
+    // source address and all octets after the header are free (a version with every header octet free as well - type of
+    // service, lengths, ident, TTL, destination - ran out of 8 GB for every protocol, also with memory checks off).
+    #[cfg(feature = "socket-tcp")]
+    fn ipv4_free_case<const N: usize>(proto: Option<u8>, fragment: bool, options: bool) {
+        env4_tcp!(iface, sockets, th, Medium::Ip, ChecksumCapabilities::ignored());
+        // IP header: to the own address from any source (the address classes are ipv4_addr_*'s subject); type of
+        // service, ident and TTL are not looked at by the stack and stay concrete.  Everything after the header free.
+        let mut b: [u8; N] = kani::any();
+        let src: u32 = kani::any();
+        let hl = if options { 24 } else { 20 };
+        let pr = match proto {
+            Some(p) => p,
+            None => b[9],
+        };
+        let (f6, f7) = (b[6], b[7]);
+        let opt = [b[20], b[21], b[22], b[23]];
+        ipv4_header(&mut b, N, pr, src, OWN_U32);
+        if options {
+            b[0] = 0x46;
+            b[20] = opt[0];
+            b[21] = opt[1];
+            b[22] = opt[2];
+            b[23] = opt[3];
+        }
+        if fragment {
+            // any flags; fragment offset 0..=3 units of 8 octets (a fully symbolic offset into the 256-octet
+            // reassembly buffer ran out of 12 GB; arbitrary offsets incl. beyond the buffer are decided by C12's
+            // ipv4_reasm_process_one_* and ipv4_reasm_step_* harnesses)
+            b[6] = f6 & 0xe0;
+            b[7] = f7 & 0x03;
+        }
+        let reply = iface.inner.process_ip(&mut sockets, PacketMeta::default(), &b[..], &mut iface.fragments);
+        kani::cover!(reply.is_some(), "a reply was produced");
+        if let Some(p) = &reply {
+            crate::vassert!(reply_src_legal(p), "prop:c10_reply_source_is_own_unicast_address");
+        }
+    }
+
+    // @harness props=C03,C10 cfg=KI4t tier=q to=1200 mem=12 unwind=10 opts=nomem covers=1 funcs=InterfaceInner::process_ip;InterfaceInner::process_ipv4;InterfaceInner::process_tcp;InterfaceInner::process_icmpv4;InterfaceInner::icmpv4_reply;PacketAssemblerSet::get;PacketAssembler::add bounds=raw-IP_medium,_one_listening_TCP_socket;_32-octet_(TCP:_44-octet)_packet_to_the_own_address_from_any_source,_every_octet_after_the_IP_header_free;_protocol_6_(TCP):_every_TCP_header_octet_free;_not_a_fragment;_no_IP_options
+    #[cfg(feature = "socket-tcp")]
     #[kani::proof]
     pub(crate) fn ipv4_bytes_free() {
-        env4_tcp!(iface, sockets, th, Medium::Ip, ChecksumCapabilities::ignored());
-        let mut b: [u8; 36] = kani::any();
-        b[0] = 0x45;
-        let len = any_le(36);
-        let reply = iface.inner.process_ip(&mut sockets, PacketMeta::default(), &b[..len], &mut iface.fragments);
-        if let Some(p) = &reply {
-            crate::vassert!(reply_src_legal(p) || is_bcast(u32::from_be_bytes([b[16], b[17], b[18], b[19]])), "prop:c10_reply_source_is_own_unicast_address");
-        }
-        kani::cover!(reply.is_some(), "a reply was produced");
-        kani::cover!(!tcp_untouched(&sockets, th), "listener took a SYN");
+        ipv4_free_case::<44>(Some(6), false, false);
+    }
+
+    // @harness props=C03,C10 cfg=KI4t tier=q to=900 mem=8 unwind=10 opts=nomem covers=1 funcs=InterfaceInner::process_ip;InterfaceInner::process_ipv4;InterfaceInner::process_tcp;InterfaceInner::process_icmpv4;InterfaceInner::icmpv4_reply;PacketAssemblerSet::get;PacketAssembler::add bounds=raw-IP_medium,_one_listening_TCP_socket;_32-octet_(TCP:_44-octet)_packet_to_the_own_address_from_any_source,_every_octet_after_the_IP_header_free;_protocol_17_(UDP,_no_UDP_socket:_port_unreachable_path);_not_a_fragment;_no_IP_options
+    #[cfg(feature = "socket-tcp")]
+    #[kani::proof]
+    pub(crate) fn ipv4_bytes_free_udp() {
+        ipv4_free_case::<32>(Some(17), false, false);
+    }
+
+    // @harness props=C03,C10 cfg=KI4t tier=q to=900 mem=8 unwind=10 opts=nomem covers=1 funcs=InterfaceInner::process_ip;InterfaceInner::process_ipv4;InterfaceInner::process_tcp;InterfaceInner::process_icmpv4;InterfaceInner::icmpv4_reply;PacketAssemblerSet::get;PacketAssembler::add bounds=raw-IP_medium,_one_listening_TCP_socket;_32-octet_(TCP:_44-octet)_packet_to_the_own_address_from_any_source,_every_octet_after_the_IP_header_free;_protocol_1_(ICMP):_every_ICMP_octet_free_(echo_request_answered,_errors_with_free_quotes);_not_a_fragment;_no_IP_options
+    #[cfg(feature = "socket-tcp")]
+    #[kani::proof]
+    pub(crate) fn ipv4_bytes_free_icmp() {
+        ipv4_free_case::<32>(Some(1), false, false);
+    }
+
+    // @harness props=C03,C10 cfg=KI4t tier=q to=900 mem=8 unwind=10 opts=nomem covers=1 funcs=InterfaceInner::process_ip;InterfaceInner::process_ipv4;InterfaceInner::process_tcp;InterfaceInner::process_icmpv4;InterfaceInner::icmpv4_reply;PacketAssemblerSet::get;PacketAssembler::add bounds=raw-IP_medium,_one_listening_TCP_socket;_32-octet_(TCP:_44-octet)_packet_to_the_own_address_from_any_source,_every_octet_after_the_IP_header_free;_protocol_253_(unknown:_protocol_unreachable_path);_not_a_fragment;_no_IP_options
+    #[cfg(feature = "socket-tcp")]
+    #[kani::proof]
+    pub(crate) fn ipv4_bytes_free_other() {
+        ipv4_free_case::<32>(Some(253), false, false);
+    }
+
+    // @harness props=C03,C10 cfg=KI4t tier=q to=1200 mem=12 unwind=10 opts=nomem covers=1 funcs=InterfaceInner::process_ip;InterfaceInner::process_ipv4;InterfaceInner::process_tcp;InterfaceInner::process_icmpv4;InterfaceInner::icmpv4_reply;PacketAssemblerSet::get;PacketAssembler::add bounds=raw-IP_medium,_one_listening_TCP_socket;_32-octet_(TCP:_44-octet)_packet_to_the_own_address_from_any_source,_every_octet_after_the_IP_header_free;_protocol_17;_any_flags,_fragment_offset_0..=24_octets_(reassembly_path);_no_IP_options
+    #[cfg(feature = "socket-tcp")]
+    #[kani::proof]
+    pub(crate) fn ipv4_bytes_free_fragment() {
+        ipv4_free_case::<32>(Some(17), true, false);
+    }
+
+    // @harness props=C03,C10 cfg=KI4t tier=q to=900 mem=8 unwind=10 opts=nomem covers=1 funcs=InterfaceInner::process_ip;InterfaceInner::process_ipv4;InterfaceInner::process_tcp;InterfaceInner::process_icmpv4;InterfaceInner::icmpv4_reply;PacketAssemblerSet::get;PacketAssembler::add bounds=raw-IP_medium,_one_listening_TCP_socket;_32-octet_(TCP:_44-octet)_packet_to_the_own_address_from_any_source,_every_octet_after_the_IP_header_free;_protocol_17;_header_length_6_words_with_4_free_option_octets;_not_a_fragment
+    #[cfg(feature = "socket-tcp")]
+    #[kani::proof]
+    pub(crate) fn ipv4_bytes_free_options() {
+        ipv4_free_case::<32>(Some(17), false, true);
+    }
+
+    // @harness props=C03,C10 cfg=KI4t tier=t to=1800 mem=16 unwind=10 opts=nomem covers=1 funcs=InterfaceInner::process_ip;InterfaceInner::process_ipv4;InterfaceInner::process_tcp;InterfaceInner::process_icmpv4;InterfaceInner::icmpv4_reply;PacketAssemblerSet::get;PacketAssembler::add bounds=raw-IP_medium,_one_listening_TCP_socket;_32-octet_(TCP:_44-octet)_packet_to_the_own_address_from_any_source,_every_octet_after_the_IP_header_free;_protocol_octet_free;_not_a_fragment;_no_IP_options
+    #[cfg(feature = "socket-tcp")]
+    #[kani::proof]
+    pub(crate) fn ipv4_bytes_free_any_proto() {
+        ipv4_free_case::<32>(None, false, false);
     }
 
     // @harness props=C11,C03 cfg=KI4 tier=q to=900 mem=8 unwind=10 opts=nomem covers=3 funcs=InterfaceInner::process_ethernet;InterfaceInner::process_arp;InterfaceInner::process_ipv4 bounds=Ethernet_medium;_any_destination/source_MAC_and_ethertype;_payload:_ICMP_echo_request_to_the_own_address
+    #[cfg(feature = "socket-icmp")]
     #[cfg(feature = "medium-ethernet")]
     #[kani::proof]
     pub(crate) fn eth_filter() {
@@ -393,6 +480,7 @@ mod v_iface_ingress {
     }
 
     // @harness props=C08,C11 cfg=KI4 tier=q to=900 mem=8 unwind=10 opts=nomem covers=2 funcs=InterfaceInner::process_ip;wire::Ipv4Repr::parse;wire::UdpRepr::parse bounds=raw-IP_medium,_rx_checksums_on;_well-formed_UDP_datagram_for_the_bound_socket_with_an_arbitrary_WRONG_checksum_field_(IP_header_or_UDP)
+    #[cfg(feature = "socket-udp")]
     #[kani::proof]
     pub(crate) fn cksum_drop_no_effect_udp() {
         env4_udp!(iface, sockets, uh, Medium::Ip, ChecksumCapabilities::default());
@@ -404,6 +492,7 @@ mod v_iface_ingress {
     }
 
     // @harness props=C08,C11 cfg=KI4 tier=q to=900 mem=8 unwind=10 opts=nomem covers=2 funcs=InterfaceInner::process_ip;wire::Ipv4Repr::parse;wire::TcpRepr::parse bounds=raw-IP_medium,_rx_checksums_on;_well-formed_TCP_SYN_for_the_listener_with_an_arbitrary_WRONG_checksum_field_(IP_header_or_TCP)
+    #[cfg(feature = "socket-tcp")]
     #[kani::proof]
     pub(crate) fn cksum_drop_no_effect_tcp() {
         env4_tcp!(iface, sockets, th, Medium::Ip, ChecksumCapabilities::default());
@@ -415,6 +504,7 @@ mod v_iface_ingress {
     }
 
     // @harness props=C08,C11 cfg=KI4 tier=q to=900 mem=8 unwind=10 opts=nomem covers=2 funcs=InterfaceInner::process_ip;wire::Ipv4Repr::parse;wire::Icmpv4Repr::parse bounds=raw-IP_medium,_rx_checksums_on;_well-formed_ICMP_echo_request_with_an_arbitrary_WRONG_checksum_field_(IP_header_or_ICMP)
+    #[cfg(feature = "socket-icmp")]
     #[kani::proof]
     pub(crate) fn cksum_drop_no_effect_icmp() {
         env4_icmp!(iface, sockets, ih, Medium::Ip, ChecksumCapabilities::default());
@@ -428,6 +518,7 @@ mod v_iface_ingress {
     // C03 "not wedged": with every reassembly slot occupied by unfinished datagrams (any idents / offsets) and the
     // listener mid-handshake, a well-formed echo request to the own address is still answered.
     // @harness props=C03,C12 cfg=KI4 tier=q to=1200 mem=8 unwind=10 opts=nomem covers=2 funcs=InterfaceInner::process_ip;InterfaceInner::process_ipv4;PacketAssemblerSet::get;PacketAssembler::add;InterfaceInner::process_icmpv4 bounds=raw-IP_medium;_3_middle_fragments_of_3_different_datagrams_(fill_both_reassembly_slots;_concrete_keys/offsets,_symbolic_payload)_then_a_TCP_SYN,_then_an_echo_request
+    #[cfg(feature = "socket-tcp")]
     #[kani::proof]
     pub(crate) fn echo_after_fragments() {
         env4_tcp!(iface, sockets, th, Medium::Ip, ChecksumCapabilities::ignored());
@@ -475,6 +566,7 @@ mod v_iface_ingress {
     }
 
     // @harness props=C11,C03 kind=mustfail cfg=KI4 tier=q to=900 mem=8 unwind=8 opts=nomem
+    #[cfg(feature = "socket-tcp")]
     #[kani::proof]
     pub(crate) fn iface_ingress_must_fail() {
         env4_tcp!(iface, sockets, th, Medium::Ip, ChecksumCapabilities::ignored());
